@@ -1,4 +1,6 @@
 
+from io import StringIO
+
 from .pair_tabulation import PairTabulation_AbstractBase, Excel_PairTabulation, _r_value_iterator
 
 from ._lammpsWriteEAM import writeSetFL, writeSetFLFinnisSinclair, _writeSetFLPairPots
@@ -276,15 +278,19 @@ class ADP_EAMTabulation(SetFL_EAMTabulation):
     """Write the tabulation to the file object `fp`.
 
     :param fp: File object into which data should be written."""
+    # Build the whole table in memory so that a failure in the dipole or quadrupole functions
+    # does not leave a setfl file without its ADP blocks in fp.
+    sbuild = StringIO()
     writeSetFL(
       self.nrho, self.drho, 
       self.nr, self.dr,
       self.eam_potentials,
       self.potentials,
-      out = fp)
+      out = sbuild)
 
-    self._write_dipole(fp)
-    self._write_quadrupole(fp)
+    self._write_dipole(sbuild)
+    self._write_quadrupole(sbuild)
+    fp.write(sbuild.getvalue())
 
 
   def _write_dipole(self, fp):
